@@ -622,7 +622,12 @@ class Gen:
         if isinstance(nm, str) and r.random() < 0.7:
             return {"k": "str", "v": nm}
         col = list(c.e.obj.cols()[j])
-        return {"k": "vec", "v": V.enc_list(col), "name": V.enc(nm)}
+        try:
+            if r.random() < 0.5:
+                return {"k": "col", "j": j}
+            return {"k": "vec", "v": V.enc_list(col), "name": V.enc(nm)}
+        except TypeError:
+            return {"k": "col", "j": j}
 
     def g_sort(self, world, infos):
         r = self.rng
@@ -784,6 +789,9 @@ class Gen:
         if m == 0:
             vals = []
         spec = self.value_spec(vals) if vals else {"k": "list", "v": []}
+        if key["k"] == "int":
+            # one position takes a scalar; a sequence there would be stored as an element
+            spec = {"k": "s", "v": V.enc(vals[0])}
         rec = {"op": "set", "h": c.name, "key": key, "val": spec, "cls": cls}
         # natural invalidities
         if self.chance("p_natural", 0.0):
